@@ -1469,7 +1469,9 @@ fn scaling(rep: &mut Report) {
             rep.count(&format!("textcost.scale.{}", c.kind));
             if !(o.outcome == "ok" || o.outcome.starts_with("err")) {
                 // the two amplification families end in an allocation failure when they are scaled up
-                let fd = if o.outcome.starts_with("crash") { f.finding } else { None };
+                // (whatever form the exhaustion takes on the machine at hand: allocation failure,
+                // the child's address-space limit, the time limit, a kill by the kernel)
+                let fd = f.finding;
                 rep.fail("oracle", fd, format!("textcost: the {} reader did not return a value ({}): {}", c.kind, c.what, o.outcome), case_json(c, o, ""));
             } else if let Some(w) = size_oracle(c, o) {
                 if !(nofail_names && w.starts_with("NAMES")) {
@@ -1505,7 +1507,14 @@ fn scaling(rep: &mut Report) {
         if ratio_x100 > *rep.distribution.get(&key).unwrap_or(&0) {
             rep.distribution.insert(key, ratio_x100);
         }
-        if o8.micros > 300_000 && o8.micros * b1 > 4 * o1.micros.max(1) * b8 {
+        // a measurement that fails is taken again: the verdict needs both to fail
+        let time_fails = |a: &Obs, b: &Obs| b.micros > 300_000 && b.micros * b1 > 4 * a.micros.max(1) * b8;
+        let confirmed = time_fails(o1, o8) && {
+            let again = run_real(rep, &[c1.clone(), c8.clone()], "textcost.scale.again");
+            rep.count("textcost.scaling.time_remeasured");
+            time_fails(&again[0], &again[1])
+        };
+        if confirmed {
             // copying the amplified names takes the time it takes
             let fd = f.finding.filter(|x| *x == "C14-jacoco-name-prefix-amplification");
             rep.fail("oracle", fd, format!("textcost: the time of the {} reader grows faster than its input on the family {}: {} us for {} bytes, {} us for {} bytes", f.kind, f.name, o1.micros, b1, o8.micros, b8), case.clone());
